@@ -30,7 +30,7 @@ ASSUMPTIONS = [
 SHARDS = {"quick": 8, "thorough": 16}
 TIMEOUT = {"quick": 600, "thorough": 3600}
 MIN_CASES = {"quick": 50_000, "thorough": 250_000}
-REQUIRED_COUNTERS = ["outbound_decoded", "inbound_deliveries_checked", "corruptions_rejected", "real_transport_teardowns"]
+REQUIRED_COUNTERS = ["outbound_decoded", "inbound_deliveries_checked", "corruptions_rejected", "real_transport_teardowns", "real_transport_idle_teardowns"]
 
 OUT_LENGTHS = [0, 1, 2, 1023, 1024, 1025, 2047, 2048, 2049, 3071, 3072, 3073, 4096, 5000, 10240, 10241]
 OK_RESPONSE = b"HTTP/1.1 204 No Content\r\n\r\n"
